@@ -139,6 +139,9 @@ func e2eSequences(c *e2eCtx) error {
 			if i%2 == 0 {
 				cfg.Alias, cfg.PkgName, cfg.PkgPath = "cov", "covpkg", "internal/cov"
 			}
+			if i%3 == 1 { // the configured path is not in clean form (the directory and the import path are)
+				cfg.PkgPathRaw = "./" + cfg.PkgPath + "/"
+			}
 			return cfg
 		})
 		if err != nil {
